@@ -168,6 +168,10 @@ def axiom_audit(pid, log):
 def build_harness(log, race=False):
     h = os.path.join(V, "harness")
     shutil.copyfile(os.path.join(REPO, "go.sum"), os.path.join(h, "go.sum"))
+    if V != "/verif":   # a copy of /verif checking a copy of the repository (sweeps, seeded changes beside ongoing work)
+        gm = os.path.join(h, "go.mod")
+        txt = re.sub(r"(replace git\.sr\.ht/~adrian-blx/psa-dhcp => )\S+", lambda m: m.group(1) + REPO, open(gm).read())
+        open(gm, "w").write(txt)
     outb = os.path.join(B, "hx.race.test" if race else "hx.test")
     cmd = ["go1.26.8", "test", "-c", "-tags", "verif", "-o", outb, "."]
     env = dict(GOENV)
